@@ -84,6 +84,8 @@ _reg("openTextgrid", "open", None, lambda w, r, a, k: tgmod.openTextgrid(*a, **k
 _reg("Wav", "ctor", None, lambda w, r, a, k: audio.Wav(*a, **k))
 # the idiom `audio.Wav(newFrames, otherWav.params)`: a new recording with the parameters of an existing one
 _reg("Wav.like", "ctor", None, lambda w, r, a, k: audio.Wav(a[0], a[1].params))
+# ... and `audio.Wav(otherWav.frames, otherWav.params)`: the very same frames object handed to a second recording
+_reg("Wav.from", "ctor", None, lambda w, r, a, k: audio.Wav(a[0].frames, a[0].params))
 for _m in ("insert", "deleteSegment", "replaceSegment", "concatenate"):
     _reg("wav." + _m, "mut", "wav", _method(_m))
 for _m in ("getSubwav", "new"):
